@@ -58,6 +58,13 @@ def check(ctx):
         ok_a = a is not None and a.symimg is not None and a.symimg[0] == 'op'
         site_based = ok_a and a.symimg[1].store == 'attr:PeriodicSite.frac_coords'
         ok_b = b is not None and is_frac(b.geo)
+        # every operation searches the full set of positions: a pool that is filtered between operations drops (operation, position) pairs
+        all_ev = [x for x in it.events if x['tag'] == 'pbc_distance' and x['node'] is e['node']]
+        if any(x['b'] is not None and ((x['b'].axes is not None and x['b'].axes and str(x['b'].axes[0]).endswith('~')) or (x['b'].maybe_empty and x['b'].origin
+                                        and any(o.endswith('.positions') for o in x['b'].origin))) for x in all_ev):
+            ctx.ob('R2', fi, e['node'], False, 'the positions searched around a symmetry image are a filtered subset (positions selected by an earlier operation '
+                                               'were removed): a position that lies within the radius of two images is collected only once, the count is too low')
+            continue
         ctx.ob('R2', fi, e['node'], True if (site_based and ok_b) else (False if ok_b and a is not None and a.store == 'attr:PeriodicSite.frac_coords' else None),
                'distances from the symmetry image of the site to the positions' if (site_based and ok_b) else
                'distances are measured from the site itself, not from its symmetry image')
